@@ -2,16 +2,65 @@
 """Writes MANIFEST.json from the table below (kept as a script so the manifest stays consistent)."""
 import json, subprocess
 
+SIM = "deterministic simulation with fault injection: "
+TRUST = " Executor, store seam, user seam, RNG stream and relying parties are simulator stubs; every ceremony code path is the real crate code built from /repo's working tree with the hook cfg on. Trusts tokio::sync, p256/sha2/hmac (oracle primitives), ciborium::Value and serde_json::Value."
 CLAIMED = {
- # id: (level category, level text, level note, technique, design ref)
+ "C02": ("exploration",
+         "Seeded simulated histories of registrations (WebAuthn and CTAP level) over a directory of valid origin/RP-ID pairs, fault-free and under injected store errors, user denials, cancellations and 2-3 concurrent actors on a shared store; every successful result is verified by an independent relying-party verifier and against the store seam's event history (exactly one save, matching private key, effective RP ID, fresh id of the configured length). Sampled, not exhaustive.",
+         "Origins/RP IDs come from unambiguously valid pairs, so no verdict depends on the C01 predicate." + TRUST,
+         SIM + "seeded ceremony histories, independent RP verifier + store-seam history oracle", "DESIGN.md §6 C02"),
+ "C03": ("exploration",
+         "Seeded interleaved registration/authentication histories over several RPs, users and allow lists on the contract-conforming reference store (bare and under every lock wrapper), fault-free and under faults/concurrency; each successful assertion is verified (ECDSA over authData||clientDataHash under the key the simulated RP holds for the returned id, client data, rpIdHash, no AT, id/rawId, user handle) and the no-eligible-credential outcome is checked against a reference model.",
+         "The store honours the documented lookup contract (C05 owns the shipped stores)." + TRUST,
+         SIM + "seeded ceremony histories, RP account database + signature verification, reference model for eligibility", "DESIGN.md §6 C03"),
+ "C04": ("exploration",
+         "The finite product of the property (2688 CTAP-level + 252 WebAuthn-level cells) is enumerated completely, one simulated run per cell with seeded nuisance parameters; the user-validation outcomes are the injected faults; the oracle reads the user-seam and store-seam history (consent precedes every write and every success, flags equal what was reported, error cases leave the store untouched, shown credential signs) and runs a twin world without the matching credential to compare outcomes while consent is missing. Complete over the product, sampled over nuisance parameters.",
+         "The user-validation step is the only source of consent (the library implements no PIN protocol)." + TRUST,
+         SIM + "complete enumeration of the consent product, user-seam fault plan, history oracle and twin-world comparison", "DESIGN.md §6 C04"),
+ "C05": ("exploration",
+         "Seeded histories over several RPs with several credentials each; part 1 judges observable outcomes on the reference store (signer bound to RP, named in a non-empty allow list, first listed otherwise; credential-excluded iff a held credential of the same RP is named), part 2 compares every lookup answer of the shipped stores (MemoryStore, Option<Passkey>, bare and wrapped) with the documented contract and classifies mismatches. Three MemoryStore mismatches are genuine defects listed in known_findings.jsonl.",
+         "The reference store is the executable statement of the documented lookup contract." + TRUST,
+         SIM + "seeded ceremony histories on reference and shipped stores, contract comparison at the store seam", "DESIGN.md §6 C05"),
+ "C06": ("exploration",
+         "Boundary monitor over every value returned in simulated ceremony runs (successes and the error values produced by injected faults, CTAP2/WebAuthn/U2F/getInfo, Debug of stored passkeys): each rendering (CBOR, JSON, Debug, nested byte strings) is searched for every stored secret as raw bytes, hex, decimal list, base64 and base64url.",
+         "Only whole secrets are searched for." + TRUST,
+         SIM + "seeded ceremony histories with injected faults, output monitor against secrets read back from the store seam", "DESIGN.md §6 C06"),
  "C07": ("fault_enumeration",
          "Systematic single-fault sweep inside a deterministic simulation: for each seeded world and target ceremony, one run per fallible store call failing with a status byte and one run per cancellation point (every poll count 0..K), plus seeded multi-fault combinations and the same faults under a second concurrent actor; oracle over the seam event history and deep store snapshots. Evidence of absence within the explored bounds, not proof.",
-         "Trusts tokio::sync primitives, p256/sha2 as oracle primitives, and that store errors are raised before any effect. Executor, store seam, user seam and RNG are simulator stubs; all ceremony code is the real crate code built from /repo.",
-         "deterministic simulation: seeded executor + store/user seams, systematic fault and cancellation sweep, history oracle", "DESIGN.md §6 C07"),
+         "Store errors are raised before any effect (a store that errs after persisting would break the property's own premise)." + TRUST,
+         SIM + "seeded executor + store/user seams, systematic fault and cancellation sweep, history oracle", "DESIGN.md §6 C07"),
+ "C08": ("exploration",
+         "Seeded histories of 3-30 assertions over credentials with and without counters, with harness edits placing stored counters at 0, 1, 2^31-1, 2^31, 2^32-2, 2^32-1, fault-free (strict per-credential model) and under store errors/cancellations; thorough runs both build profiles (overflow checks on and off).",
+         "Single actor: counter races between authenticators belong to C19." + TRUST,
+         SIM + "seeded assertion histories with boundary counter edits and store faults, per-credential reference model", "DESIGN.md §6 C08"),
+ "C09": ("exploration",
+         "Seeded histories over authenticator configurations (no hmac-secret / UV-only / with non-UV secret, evaluation at creation on/off), verified and unverified ceremonies decided by the user seam, credentials with and without stored secrets, all PRF input shapes incl. the six malformed classes; expected outputs are recomputed with hmac/sha2 from the secrets read back from the store seam; malformed requests must fail with no user/store event in the history.",
+         "Per-credential keys that decode to the same id are not generated (the library's winner would depend on HashMap order)." + TRUST,
+         SIM + "seeded ceremony histories, user-seam verification outcomes, HMAC recomputation from store-seam secrets", "DESIGN.md §6 C09"),
+ "C11": ("exploration",
+         "The finite product capability x residentKey x requireResidentKey x credProps (72 cells) plus capability x rk (6 cells) is enumerated completely, each cell a simulated register-then-authenticate history with seeded nuisance parameters; the oracle reads the rk option and the saved record at the store seam.",
+         "The WebAuthn L3 residentKey mapping is restated independently in the oracle." + TRUST,
+         SIM + "complete enumeration of the discoverability product, store-seam observation", "DESIGN.md §6 C11"),
+ "C15": ("fault_enumeration",
+         "Link world: valid in-flight messages produced by the real encoders are damaged by a systematic single-fault sweep (truncation at every offset, every bit of the first 256 bytes, declared-length rewrites at every CBOR header, huge JSON numbers, nesting to 100000, U2F header fields over their range, HID packets of every length 0-130 with rewritten BCNT/seq, drop/dup/swap) and by seeded multi-fault combinations, and fed to every public decoder inside crash-isolated workers with a counting allocator and a watchdog. Borderline for this technique family and said so in DESIGN.md: apart from the stateful HID receiver the decoders are pure functions, so this is fault injection on a simulated link rather than scheduling.",
+         "Bounds: single allocation <= 256 x len + 2 MiB, peak heap <= 512 x len + 4 MiB, <= 4 s per case. The watchdog is the only measured (not computed) quantity in the simulator.",
+         SIM + "simulated link with systematic wire-fault sweep into every decoder, crash-isolated workers with counting allocator and watchdog", "DESIGN.md §6 C15"),
+ "C16": ("exploration",
+         "HID world: 2-4 channels write through the real Message::new/Message::send into recording endpoints, a seeded merger decides whose packet the one real ChannelHandler receives next (each channel's order kept); an independent packet decoder checks the wire format and the receiver must return each message exactly once, on its last packet, unaltered. Short streams are expanded into all interleavings in the thorough tier.",
+         "No loss/duplication/corruption in this family (the property does not speak of them). Channel-id byte order on the wire is not judged.",
+         SIM + "simulated HID bus with seeded (and for short streams exhaustive) packet interleaving, independent wire decoder", "DESIGN.md §6 C16"),
+ "C17": ("exploration",
+         "A simulated U2F host frames raw extended-length requests, the real parser, U2fApi and encoders answer; seeded histories of registrations and authentications with arbitrary handles, counters and presence bytes on the reference store and MemoryStore, with store errors and cancellations on odd indexes; signatures are verified independently and encodings compared with independently built ones.",
+         "The glue between parsed request and U2fApi (key handle, counter, presence byte) is the simulated token firmware." + TRUST,
+         SIM + "simulated U2F host/token exchange with store faults, independent signature verification and encoding comparison", "DESIGN.md §6 C17"),
+ "C18": ("exploration",
+         "Twin worlds from one seeded scenario (same store, user plan, fault plan and random byte stream): direct calls vs. calls through Ctap2Api; CBOR of every result pair and the stores must be identical and the trait world must terminate (crash-isolated worker, 8 MiB stack).",
+         "With the same random byte stream key generation and RFC 6979 ECDSA are deterministic, so equal behaviour means byte-identical responses." + TRUST,
+         SIM + "twin-world refinement check under identical seeded seams, crash-isolated", "DESIGN.md §6 C18"),
  "C19": ("exploration",
          "Seeded schedule search: 2-3 real Authenticators on one Arc<tokio::sync::Mutex|RwLock<store>> under a deterministic executor that decides every interleaving at every suspension point; invariants over the recorded history (no deadlock, no lost credential, distinct counters, max = stored). Sampled interleavings, not all.",
-         "Trusts tokio::sync; assumes executions on a multi-threaded runtime are equivalent to interleavings at await granularity. One genuine defect is listed in known_findings.jsonl (stale counter write-back) and reported as KNOWN-FINDING; any other clause is a VIOLATION.",
-         "deterministic simulation: seeded scheduler over real tokio::sync lock wrappers, history invariants", "DESIGN.md §6 C19"),
+         "Executions on a multi-threaded runtime are equivalent to interleavings at await granularity. One genuine defect is listed in known_findings.jsonl (stale counter write-back) and reported as KNOWN-FINDING; any other clause is a VIOLATION." + TRUST,
+         SIM + "seeded scheduler over real tokio::sync lock wrappers, history invariants", "DESIGN.md §6 C19"),
 }
 
 NOT_APPLICABLE = {
@@ -21,10 +70,11 @@ NOT_APPLICABLE = {
  "C13": "Pure codec conformance (needs an independent decoder, not a simulator); status-byte clauses are a total function on 256 values.",
  "C14": "Pure parser/serialiser equivalences over presentations of one value; nothing for a simulator to schedule or fault.",
 }
-PENDING = ["C02","C03","C04","C05","C06","C08","C09","C11","C15","C16","C17","C18"]
+PENDING = []
 
 head = subprocess.run(["git","-C","/repo","log","--format=%H %s"],capture_output=True,text=True).stdout.strip().splitlines()
 hook_commits = [l.split()[0] for l in head if "verif hook" in l]
+fix_commits = [l for l in head if " fix:" in l]
 
 checks = []
 for pid,(cat,text,note,tech,ref) in sorted(CLAIMED.items()):
@@ -56,7 +106,7 @@ m = {
  "engines": [{"name":"pksim","path":"/verif/sim","serves_properties":sorted(CLAIMED),"kind_free_text":"deterministic simulator: single-threaded seeded executor, store/user/RNG/HID-bus/link seams with fault plans, explicit Scenario values as replay files, delta-debugging minimiser, crash-isolated worker processes"}],
  "checks": checks,
  "not_applicable": sorted(na, key=lambda x: x["property_id"]),
- "notes": "All checks: ./check <ID> [--tier quick|thorough]; exit 0 held / 1 VIOLATION line / 2 harness error. Known genuine defects are listed in /verif/known_findings.jsonl and printed as KNOWN-FINDING lines.",
+ "notes": "All checks: ./check <ID> [--tier quick|thorough]; exit 0 held / 1 VIOLATION line / 2 harness error. Known genuine defects are listed in /verif/known_findings.jsonl and printed as KNOWN-FINDING lines. Genuine defects repaired in /repo ('fix:' commits): " + "; ".join(fix_commits),
 }
 json.dump(m, open("MANIFEST.json","w"), indent=1)
 print("claimed", sorted(CLAIMED), "n/a", [x["property_id"] for x in m["not_applicable"]])
